@@ -158,7 +158,7 @@ fn closed_form_case(rng: &mut Rng, class: Class, out: &mut CaseOut) {
         return;
     }
     let cr = code_rate(rate, k, r);
-    match check_against_closed_form(rng, cr, k, r, &originals, &recovery, 3_000_000) {
+    match check_against_closed_form(rng, cr, k, r, &originals, &recovery, if crate::thorough() { 30_000_000 } else { 3_000_000 }) {
         Ok(n) => out.evals += n,
         Err(m) => out.violate(
             format!("C02:closed-form-mismatch:{:?}", cr),
